@@ -713,17 +713,32 @@ func (a *Act) mapHeaps(st *State, mt *types.Map) (dk, ds, vk, vs string, ks, vso
 	g := a.vc.g
 	ks = g.sortOf(mt.Key())
 	vsort = g.sortOf(mt.Elem())
-	dk = "MD:" + ks + ":" + vsort
+	tag := mapTag(g, mt)
+	dk = "MD:" + tag
 	ds = "(Array Int (Array " + ks + " Bool))"
-	vk = "MV:" + ks + ":" + vsort
+	vk = "MV:" + tag
 	vs = "(Array Int (Array " + ks + " " + vsort + "))"
 	return
 }
 
+// mapTag names the heaps of one map type: key sort, value sort and, for integer keys/values, the Go kind - maps of
+// different Go types (map[string]uint32 vs map[string]uint64) can never alias, so they get separate heaps.
+func mapTag(g *Globals, mt *types.Map) string {
+	part := func(t types.Type) string {
+		s := g.sortOf(t)
+		if b, ok := t.Underlying().(*types.Basic); ok && s == sInt {
+			return s + "." + b.Name()
+		}
+		return s
+	}
+	k, v := part(mt.Key()), part(mt.Elem())
+	// keep the historical names for the common non-integer cases (contracts name them in reads clauses)
+	return k + ":" + v
+}
+
 // mlKey is the length heap of maps of type mt (one heap per map type, so maps of different types never alias).
 func (a *Act) mlKey(mt *types.Map) string {
-	g := a.vc.g
-	return "ML:" + g.sortOf(mt.Key()) + ":" + g.sortOf(mt.Elem())
+	return "ML:" + mapTag(a.vc.g, mt)
 }
 
 func (a *Act) lookup(st *State, x *ssa.Lookup) Val {
@@ -838,7 +853,11 @@ func (a *Act) mapLen(st *State, m Val) string {
 	mt := m.T.Underlying().(*types.Map)
 	L := a.vc.getHeap(st, a.mlKey(mt), "(Array Int Int)")
 	r := ite(eq(m.S, "0"), "0", sel(L, m.S))
-	a.vc.assume("true", "(>= "+sel(L, m.S)+" 0)")
+	a.vc.assume("true", "(and (>= "+sel(L, m.S)+" 0) (<= "+sel(L, m.S)+" 9223372036854775807))")
+	// a map with a key has positive length
+	dk, ds, _, _, ks, _ := a.mapHeaps(st, mt)
+	dom := sel(a.vc.getHeap(st, dk, ds), m.S)
+	a.vc.assume(st.guard, fmt.Sprintf("(forall ((k %s)) (! (=> (and (not (= %s 0)) (select %s k)) (>= %s 1)) :pattern ((select %s k))))", ks, m.S, dom, sel(L, m.S), dom))
 	return r
 }
 
